@@ -87,6 +87,45 @@ def has_unit_in_scope(func):
     return False
 
 
+def header_locals(func):
+    """locals bound to a header parsed in this function: name = struct_parse(<...header...>, ...)"""
+    out = set()
+    for st in ast.walk(func.node):
+        if isinstance(st, ast.Assign) and len(st.targets) == 1 and isinstance(st.targets[0], ast.Name) and isinstance(st.value, ast.Call) and \
+                isinstance(st.value.func, ast.Name) and st.value.func.id == 'struct_parse' and st.value.args and 'header' in ast.unparse(st.value.args[0]).lower():
+            out.add(st.targets[0].id)
+    return out
+
+
+def gowner_headers(ctx, world, mods):
+    """G-OWNER for table walks that parse one header per set (address-range sets, name lookup sets): the address size that sizes
+    and aligns the set's tuples is the one in the *set's own header*; the section-level structs only know the file's default."""
+    n = 0
+    for f in world.model.library_funcs():
+        rel = f.mod.replace('elftools/', '')
+        if rel not in mods:
+            continue
+        hs = header_locals(f)
+        if not hs:
+            continue
+        for x in ast.walk(f.node):
+            chain = None
+            if isinstance(x, ast.Subscript) and isinstance(x.slice, ast.Constant) and x.slice.value == 'address_size' and isinstance(x.ctx, ast.Load):
+                chain = ast.unparse(x.value)
+            elif isinstance(x, ast.Attribute) and x.attr == 'address_size' and isinstance(x.ctx, ast.Load):
+                chain = ast.unparse(x.value)
+            if chain is None:
+                continue
+            n += 1
+            root = chain.split('.')[0].split('[')[0]
+            ok = root in hs
+            ctx.ob('G-OWNER', f.construct, 'address_size read through %s' % chain, ok, got=chain, line=x.lineno,
+                   msg='the tuple size / padding of a set is computed from the section-level default address size instead of the address '
+                       'size in the set\'s own header: a set of the other address size is misaligned and loses tuples',
+                   sample='%s: %s.address_size (the set header)' % (f.construct, chain))
+    return n
+
+
 def gowner(ctx, world, mods, only=None):
     """Arm G-OWNER over the functions of `mods` (relative module names) that have a unit in scope."""
     n = 0
